@@ -42,6 +42,11 @@ def run(ctx):
     trace = tc.run_parallel(ctx, "^TestVfTargets$", sc, "c13", procs=8 if quick else 14)
     n, _ = vf.validate_runs(ctx, "TargetsTrace", trace, cfg="TargetsTrace_A2", keyfn=tc.target_key, label="target files", timeout=3000)
     ctx.count(0, [("spec", i) for i in range(n)])
+    # socket-level tier, 'no MAC known for the destination': an ARP cache whose only usable entry is one target's own, IPv6 neighbours in
+    # the same file, no --gwmac, no default route - the other targets become one error each and no probe
+    from checks import wire_tier as wt
+    n2, rej = wt.run_wire(ctx, select=lambda s: s["name"] == "tcp-cache-v6-no-gateway", label="c13w", focus="coverage")
+    wt.report(ctx, "C13", rej)
     ctx.cov["exhaustive"] = not quick
     for r0 in vf.split_runs(vf.read_ndjson(trace))[:200:50]:
         ctx.sample(r0)
